@@ -381,7 +381,7 @@ func resOf(v int, err error) []any {
 		return []any{"end"}
 	case errors.As(err, &se):
 		return []any{"err", se.code}
-	case err == context.Canceled:
+	case isCtxErr(err):
 		return []any{"ctx"}
 	case err == stream.ErrClosedPipe:
 		return []any{"closedpipe"}
